@@ -705,7 +705,7 @@ func C11(c *Ctx) {
 				continue
 			}
 			n9++
-			fs := flow.FactsAt(b)
+			fs := withPhiWays(flow.FactsAt(b))
 			tested := ctxAlive(fs, exec, runSite)
 			if !tested {
 				for _, ft := range fs {
@@ -758,6 +758,23 @@ func C11(c *Ctx) {
 				// the type test may be the verdict of a boolean helper (`case isInterruption(err):`)
 				if !okMap && c11InterruptionVerdict(b, 0) {
 					okMap = true
+				}
+				// or one of the assignments to a boolean variable that is tested afterwards
+				// (`interrupted := ctx.Err() != nil; if !interrupted && err != nil { _, interrupted = err.(*T) }`)
+				if !okMap {
+					here := flow.FactsAt(b)
+					for _, f := range here {
+						ways, _ := phiWays(f, here)
+						for _, w := range ways {
+							for _, wf := range w {
+								if ex, isEx := wf.Cond.(*ssa.Extract); isEx && wf.True && ex.Index == 1 {
+									if ta, isTA := ex.Tuple.(*ssa.TypeAssert); isTA && ssau.TypeIs(ta.AssertedType, gojaRuntime, "InterruptedError") {
+										okMap = true
+									}
+								}
+							}
+						}
+					}
 				}
 			}
 		}
@@ -1190,4 +1207,96 @@ func c11CallStructs(p ssa.Value, f *ssa.Function, fns []*ssa.Function, depth int
 		return out, len(out) > 0
 	}
 	return nil, false
+}
+
+// factsContradict: some fact of fa and some fact of fb give opposite answers to the same condition (the same value, or
+// the same / the negated comparison of the same stable operands).
+func factsContradict(fa, fb []flow.Fact) bool {
+	for _, x := range fa {
+		for _, y := range fb {
+			switch flow.CondRel(x.Cond, y.Cond) {
+			case 1:
+				if x.True != y.True && flow.Stable(x.Cond) && flow.Stable(y.Cond) {
+					return true
+				}
+			case -1:
+				if x.True == y.True {
+					return true
+				}
+			}
+		}
+	}
+	return false
+}
+
+// phiWays: f is a fact on a boolean variable that several assignments merge into (a phi outside any loop:
+// `interrupted := ctx.Err() != nil; if !interrupted && err != nil { _, interrupted = err.(*T) }`).  Returned are, for
+// every way the variable can have got the value the fact gives it, the facts that hold on that way (the facts of
+// the incoming edge and the fact on the value assigned there); ways that contradict themselves or the facts already
+// known are left out.  ok is false when f is no such fact.
+func phiWays(f flow.Fact, known []flow.Fact) (ways [][]flow.Fact, ok bool) {
+	phi, isPhi := f.Cond.(*ssa.Phi)
+	if !isPhi || flow.InCycle(phi.Block()) {
+		return nil, false
+	}
+	if b, isB := phi.Type().Underlying().(*types.Basic); !isB || b.Kind() != types.Bool {
+		return nil, false
+	}
+	for i, e := range phi.Edges {
+		cand := append([]flow.Fact{}, flow.EdgeFacts(phi.Block().Preds[i], phi.Block())...)
+		if k, isC := e.(*ssa.Const); isC && k.Value != nil {
+			if (k.Value.String() == "true") != f.True {
+				continue
+			}
+		} else {
+			cand = flow.Expand(append(cand, flow.Fact{Cond: e, True: f.True, If: f.If}))
+		}
+		if factsContradict(cand, cand) || factsContradict(cand, known) {
+			continue
+		}
+		ways = append(ways, cand)
+	}
+	return ways, true
+}
+
+// withPhiWays adds to the facts fs what holds on every way a merged boolean variable can have got its known value
+// (see phiWays): under `!interrupted` above the context has not ended, whichever assignment said so.
+func withPhiWays(fs []flow.Fact) []flow.Fact {
+	out := append([]flow.Fact{}, fs...)
+	has := func(set []flow.Fact, x flow.Fact) bool {
+		for _, y := range set {
+			if y.Cond == x.Cond && y.True == x.True {
+				return true
+			}
+		}
+		return false
+	}
+	for iter := 0; iter < 3; iter++ {
+		added := false
+		for _, f := range out {
+			ways, ok := phiWays(f, out)
+			if !ok || len(ways) == 0 {
+				continue
+			}
+			for _, x := range ways[0] {
+				if has(out, x) {
+					continue
+				}
+				all := true
+				for _, w := range ways[1:] {
+					if !has(w, x) {
+						all = false
+					}
+				}
+				if all {
+					out = append(out, x)
+					added = true
+				}
+			}
+		}
+		if !added {
+			break
+		}
+	}
+	return out
 }
